@@ -7,13 +7,13 @@ CHECKS = {
     'C01': ('explicit enumeration of operator derivations x element kinds x configurations on emmet.expand vs reference tree denotation',
             '4.C01', 'All operator skeletons up to the stated element/group/repeater bounds, all kind assignments and the six '
             'style/format configurations are expanded by the real code and compared event-by-event with a reference denotation; '
-            'a composition sweep chains corpora to reach larger trees.'),
+            'a composition sweep chains corpora to reach larger trees; a climb sweep covers runs of three and four `^`; the calls of a shard share one cache dict.'),
     'C02': ('explicit enumeration of numbering templates x numbering forms x sites x maxRepeat on emmet.expand vs reference unroller',
             '4.C02', 'Exhaustive over all nesting templates of repeated elements/groups up to the unit bound, 24 numbering forms at 8 sites (element, class, attribute name / value / quoted value / expression value, id, text) and all limits; a JSX pass.'),
     'C03': ('explicit enumeration of attribute-mention sequences x option lattice (<=2 deviations) x syntaxes vs reference merge; payload typing tree',
             '4.C03', 'Exhaustive over mention sequences up to length k and option sets up to 2 deviations, also inside repeaters, on a multi-element alias and on a label that wraps a control; payload alphabet up to the unit bound.'),
     'C04': ('typing-tree enumeration of text payloads x host positions and of wrap-line lists x templates on emmet.expand, closed-form oracle',
-            '4.C04', 'Exhaustive over payloads up to the unit bound in every host and over all line lists up to the bound.'),
+            '4.C04', 'Exhaustive over payloads up to the unit bound in every host, over all line lists up to the bound and over all multi-line texts (LF / CRLF / CR next to numbering, fields and variables) up to the unit bound under html, pug and haml.'),
     'C05': ('explicit enumeration of stylesheet value sequences x option lattice x syntaxes vs reference rendering (colors compared by value)',
             '4.C05', 'Exhaustive over all 1/2/3-digit hex colors, channel-sweeps of 6-digit colors, number/unit products and value sequences up to the bound; every joined batch goes through a cache primed under wholly different options.'),
     'C06': ('complete enumeration of the built-in stylesheet snippet table x syntaxes x keyword/case forms x scopes x user overrides',
@@ -29,13 +29,13 @@ CHECKS = {
     'C11': ('typing-tree enumeration of lines x positions x options (consistency) and of embedded abbreviations x contexts (round trip) on extract()',
             '4.C11', 'All lines up to the length bound with every position/option combination; all generated abbreviations in all contexts.'),
     'C12': ('explicit enumeration of abbreviations x formatting-option lattice (<=2 deviations) x syntaxes, differential vs unformatted baseline + indentation oracle',
-            '4.C12', 'Exhaustive over derivations up to the element bound and option sets up to 2 deviations.'),
+            '4.C12', 'Exhaustive over derivations up to the element bound and option sets up to 2 deviations; all calls of a shard share one cache dict and the order of the option sets rotates from shard to shard.'),
     'C13': ('explicit enumeration of abbreviations x syntaxes x newline/indent/baseIndent product with recording callbacks, positional oracle',
             '4.C13', 'Every callback invocation of every explored run is checked against the final string.'),
     'C14': ('complete enumeration of built-in markup snippet tables x contexts (alias vs definition) + all user tables over a small name/definition menu with frame-depth probe',
             '4.C14', 'Built-in tables enumerated completely (every name of every raw key); user tables (cyclic included) exhaustively over the menu, with context independence and an in-place edit of the table.'),
     'C15': ('explicit enumeration of abbreviations x haml/pug/slim x indent strings vs reference tree and HTML-output tree',
-            '4.C15', 'Exhaustive over derivations up to the element bound.'),
+            '4.C15', 'Exhaustive over derivations up to the element bound; multi-line text in all three line-break spellings; the calls of a shard share one cache dict.'),
     'C16': ('typing-tree + edit-neighbourhood enumeration of source strings x every position (incl. out of range) on all scanner/matcher entry points, range well-formedness oracle',
             '4.C16', 'All strings up to the length bound over the HTML/CSS punctuation alphabets, all positions -1..len+1.'),
     'C17': ('explicit enumeration of HTML/CSS document forests x every position on the action helpers vs generator ground truth',
